@@ -54,6 +54,8 @@ class OutputSuppressionContext:
         self._restored = False
         self._restored_lock = threading.Lock()
         self._saved_fds: dict[int, int] = {}
+        # The logging threshold as it was when the context was entered.
+        self._saved_logging_disable: int | None = None
 
     def restore(self) -> None:
         """Restore stdout and stderr at both Python and OS level."""
@@ -71,12 +73,18 @@ class OutputSuppressionContext:
             self._saved_fds.clear()
             sys.stdout = sys.__stdout__
             sys.stderr = sys.__stderr__
+            if self._saved_logging_disable is not None:
+                logging.disable(self._saved_logging_disable)
 
     def __enter__(self) -> None:
         # Save OS-level fds before the SUT has a chance to close them.
         for fd in (0, 1, 2):
             with contextlib.suppress(OSError):
                 self._saved_fds[fd] = os.dup(fd)
+        self._saved_logging_disable = logging.root.manager.disable
+        if self._null_file.closed:
+            # A previously executed test case closed the shared sink (sys.stdout.close()).
+            OutputSuppressionContext._null_file = open(os.devnull, mode="w")  # noqa: PLW1514, PTH123, SIM115
         sys.stdout = self._null_file
         sys.stderr = self._null_file
 
